@@ -210,7 +210,8 @@ Definition run (cs : list case) : list (N * N * N) :=
 Record certres := mk_cr {
   cr_result : rres;
   cr_method : N;                   (* RevocationMethod: 0 unknown, 1 OCSP, 2 CRL, 3 OCSPFallbackCRL, other values *)
-  cr_servers : list (N * bool) }.  (* ServerResults: (RevocationMethod, Error != nil) *)
+  cr_servers : list (option (N * bool)) }.  (* ServerResults: (RevocationMethod, Error != nil); None = a nil *ServerResult
+                                      (only logged; dereferenced without a check before /repo fix a146158) *)
 
 Record xinput := mk_xinput {
   x_action : action;          (* action of the revocation type in the level *)
